@@ -1,1 +1,10 @@
-fn main(){ let src = std::fs::read_to_string(std::env::args().nth(1).unwrap()).unwrap(); match rooc::RoocParser::new(src.clone()).parse() { Ok(p)=>println!("OK\n{}", p), Err(e)=>println!("ERR {}", e.to_string_from_source(&src)) } }
+// probe: variable-free model through every solver
+use rooc::*;
+fn main() {
+    let mut m = LinearModel::new();
+    m.set_objective(vec![], OptimizationType::Min);
+    println!("clarabel {:?}", std::panic::catch_unwind(|| solve_real_lp_problem_clarabel(&m).map(|s| s.value())));
+    println!("micro {:?}", std::panic::catch_unwind(|| solve_real_lp_problem_micro_lp(&m).map(|s| s.value())));
+    println!("simplex {:?}", std::panic::catch_unwind(|| solve_real_lp_problem_slow_simplex(&m, 100).map(|s| s.value())));
+    println!("milp {:?}", std::panic::catch_unwind(|| solve_milp_lp_problem(&m).map(|s| s.value())));
+}
